@@ -210,7 +210,7 @@ class Gen:
             stub['flags'] = [{'name': n, 'comment': self.comment(),
                               'mod': r.choice([None, None, None, 'none', 'all'])} for n in names]
         elif k == 'record':
-            deriving = r.choice([None, None, [], ['eq'], ['ord'], ['eq', 'ord'], ['ord', 'eq'], ['eq', 'eq']])
+            deriving = r.choice(getattr(self, 'deriving_choices', None) or [None, None, [], ['eq'], ['ord'], ['eq', 'ord'], ['ord', 'eq'], ['eq', 'eq']])
             allowed = {'primitive', 'record', 'enum', 'flags', 'function'}
             if not ((deriving and 'ord' in deriving) or 'ord' in self.default_deriving):
                 allowed |= {'collection'}
